@@ -188,9 +188,12 @@ func (sw *SprayAndWait) ReportFailure(bp BundleDescriptor, sender cla.Convergenc
 		"bad_cla": sender,
 	}).Debug("Transmission failure")
 
-	sw.dataMutex.RLock()
+	// The metadata is read, modified and written back under one lock. Otherwise, concurrent reports for the same
+	// bundle - forward starts one goroutine per peer - would overwrite each other's update.
+	sw.dataMutex.Lock()
+	defer sw.dataMutex.Unlock()
+
 	metadata, ok := sw.bundleData[bp.Id]
-	sw.dataMutex.RUnlock()
 	if !ok {
 		log.WithFields(log.Fields{
 			"bundle": bp.ID(),
@@ -209,9 +212,7 @@ func (sw *SprayAndWait) ReportFailure(bp BundleDescriptor, sender cla.Convergenc
 		}
 	}
 
-	sw.dataMutex.Lock()
 	sw.bundleData[bp.Id] = metadata
-	sw.dataMutex.Unlock()
 
 	verifPoint("SprayAndWait.ReportFailure:written")
 }
@@ -402,9 +403,11 @@ func (bs *BinarySpray) ReportFailure(bp BundleDescriptor, sender cla.Convergence
 
 	binarySprayBlock := metadataBlock.Value.(*bpv7.BinarySprayBlock)
 
-	bs.dataMutex.RLock()
+	// The metadata is read, modified and written back under one lock, compare SprayAndWait.ReportFailure.
+	bs.dataMutex.Lock()
+	defer bs.dataMutex.Unlock()
+
 	metadata, ok := bs.bundleData[bp.Id]
-	bs.dataMutex.RUnlock()
 	if !ok {
 		log.WithFields(log.Fields{
 			"bundle":  bp.ID(),
@@ -424,9 +427,7 @@ func (bs *BinarySpray) ReportFailure(bp BundleDescriptor, sender cla.Convergence
 		}
 	}
 
-	bs.dataMutex.Lock()
 	bs.bundleData[bp.Id] = metadata
-	bs.dataMutex.Unlock()
 
 	verifPoint("BinarySpray.ReportFailure:written")
 }
